@@ -658,6 +658,50 @@ class Lang:
             acc.append((a and b) if op == "and" else (a or b) if op == "or" else (a and not b))
         return Lang(self.classes, trans, acc)
 
+    def is_infinite(self) -> bool:
+        """The language contains arbitrarily long strings: a cycle lies on a path from the start to an accepting state."""
+        n = len(self.trans)
+        fwd = {self.start}
+        stack = [self.start]
+        while stack:
+            x = stack.pop()
+            for t in self.trans[x]:
+                if t not in fwd:
+                    fwd.add(t)
+                    stack.append(t)
+        rev: Dict[int, Set[int]] = {}
+        for x, row in enumerate(self.trans):
+            for t in row:
+                rev.setdefault(t, set()).add(x)
+        bwd = {x for x in range(n) if self.accepting[x]}
+        stack = list(bwd)
+        while stack:
+            x = stack.pop()
+            for y in rev.get(x, ()):
+                if y not in bwd:
+                    bwd.add(y)
+                    stack.append(y)
+        live = fwd & bwd
+        # cycle detection restricted to live states
+        color: Dict[int, int] = {}
+        for s0 in live:
+            if s0 in color:
+                continue
+            st = [(s0, iter(set(self.trans[s0]) & live))]
+            color[s0] = 1
+            while st:
+                x, itr = st[-1]
+                nxt = next(itr, None)
+                if nxt is None:
+                    color[x] = 2
+                    st.pop()
+                elif color.get(nxt) == 1:
+                    return True
+                elif nxt not in color:
+                    color[nxt] = 1
+                    st.append((nxt, iter(set(self.trans[nxt]) & live)))
+        return False
+
     def shortest(self) -> Optional[str]:
         from collections import deque
 
